@@ -12,10 +12,11 @@ import GherkinVerif.Lemmas.Glue
 import GherkinVerif.Lemmas.Compile
 import GherkinVerif.Spec.TableFacts
 import GherkinVerif.Gen.ParserTable
+import GherkinVerif.KDecide
 namespace GV
 
 /-- facts about the regenerated table used below -/
-theorem C01_fact_lookaheads : Spec.lookaheadsStopAtEOF Gen.parserTable = true := by decide +kernel
+theorem C01_fact_lookaheads : Spec.lookaheadsStopAtEOF Gen.parserTable = true := by kdecide
 
 /-- Outcome form: a rejected parse carries exactly one error in stop-at-first-error mode and, in
     collecting mode, between one and `cap + 1` (= eleven) errors with pairwise distinct messages. -/
